@@ -18,6 +18,7 @@ sys.path.insert(0, HERE)
 
 from . import registry as R
 from . import frontend as F
+from . import monitor as _monitor  # installs the G2 yield hook
 
 CONTRACT_MODULES = None
 
